@@ -1,5 +1,6 @@
 use crate::object::{Object, Type};
 use bitvec::prelude as bv;
+use std::collections::HashMap;
 
 // TODO: Change visibility of GC to crate-private (not directly possible because of pub Object type)
 pub struct GC {
@@ -65,6 +66,9 @@ impl GC {
     /// Sweeps all objects
     /// This is automatically called once the Garbage Collector is dropped
     pub fn destroy(&mut self) {
+        // Nothing is reachable any more: an all-zero bitmap makes sweep free every managed object
+        self.mark_bitmap.clear();
+        self.mark_bitmap.resize(self.objects.len(), false);
         self.sweep();
     }
 
@@ -79,12 +83,22 @@ impl GC {
         #[cfg(feature = "verif")]
         let before: Vec<usize> = self.objects.iter().map(|o| o.verif_raw()).collect();
 
+        // One (unset) bit per managed object
         self.mark_bitmap.clear();
+        self.mark_bitmap.resize(self.objects.len(), false);
+
+        // Position of every managed object in the objects vector (= its bit in the bitmap)
+        let positions: HashMap<*mut u8, usize> = self
+            .objects
+            .iter()
+            .enumerate()
+            .map(|(i, o)| (o.as_ptr(), i))
+            .collect();
 
         // Mark all reachable objects
         for root in roots.iter() {
             for obj in root.iter() {
-                self.mark(obj);
+                self.mark(obj, &positions);
             }
         }
 
@@ -110,17 +124,17 @@ impl GC {
 
     /// Marks the given object as reachable
     #[inline(always)]
-    fn mark(&mut self, o: &Object) {
+    fn mark(&mut self, o: &Object, positions: &HashMap<*mut u8, usize>) {
         if !o.is_heap_allocated() {
             return;
         }
 
-        let index = unsafe {
-            let object_ptr: *mut Object = o.as_ptr().cast();
-            let universe_ptr: *const Object = self.objects.as_ptr().cast();
-            object_ptr.offset_from(universe_ptr) as usize
+        // Objects that are not managed by this collector are not ours to mark (or free)
+        let index = match positions.get(&o.as_ptr()) {
+            Some(index) => *index,
+            None => return,
         };
-        debug_assert!(index < self.objects.len());
+        debug_assert!(index < self.mark_bitmap.len());
 
         if o.tag() == Type::Array {
             // Safety: we know the size of mark_bitmap.
@@ -134,7 +148,7 @@ impl GC {
 
                     // Safety: we already checked the type.
                     for v in o.as_vec_unchecked() {
-                        self.mark(v);
+                        self.mark(v, positions);
                     }
                 }
             }
